@@ -3,6 +3,7 @@ package checks
 import (
 	"fmt"
 	"sort"
+	"strings"
 
 	"github.com/openacid/slim/encode"
 	"github.com/openacid/slim/trie"
@@ -123,7 +124,7 @@ func scaffoldSet(sp *spaceCtx, thorough bool, shorts []int, filter func(string) 
 	for k := 0; k < 4; k++ {
 		scs = append(scs, h.ScaffoldBigPair(k))
 	}
-	scs = append(scs, h.ScaffoldBigNibble())
+	scs = append(scs, h.ScaffoldBigNibble(), h.ScaffoldBigAlias())
 	for _, s := range shorts {
 		if f := shortFiller(sp.sigma, s, false); f != nil {
 			scs = append(scs, h.ScaffoldFixed(fmt.Sprintf("short%d", s), f, "\xb0"))
@@ -377,6 +378,78 @@ func buildPhases(r *h.Run, p profile) []phase {
 		} else {
 			phases = append(phases, subsetPhase("scaffolds:K(U21)", sp.u2, 0, sck, scs, mk(sp.q2)))
 		}
+	}
+
+	// shift sweep: S's root node takes every bit offset modulo 64 (k = 0..70;
+	// thorough 0..130), for three label-rich variable sets
+	{
+		maxK := 70
+		if thorough {
+			maxK = 130
+		}
+		rich := [][]string{
+			{"", "\x00", "\x0f", "\xf0", "\xff"},
+			{"\x0f", "\x0f\xff", "\xf0", "\xf0\x00", "\xff\xff"},
+			{"\xff", "\xff\x00", "\xff\x0f\xf0"},
+		}
+		r.Bounds["shift_sweep"] = fmt.Sprintf("k = 0..%d inner nodes before S's root x %d label-rich variable sets", maxK, len(rich))
+		mkq := mk(sp.q2)
+		phases = append(phases, phase{"shift-sweep", func(emit func(u interface{}) bool) {
+			for k := 0; k <= maxK; k++ {
+				sc := h.ScaffoldFixed(fmt.Sprintf("sweep%d", k), h.SweepFiller(k), "\xff")
+				if p.scaffoldFilter != nil && !p.scaffoldFilter("sweep") {
+					return
+				}
+				for _, S := range rich {
+					u := mkq(sc.Apply(S), false)
+					u.patterns = []uint64{(1 << uint(len(S)-1)) - 1, 0x5}
+					u.fillerModes = []string{"distinct"}
+					if !emit(u) {
+						return
+					}
+				}
+			}
+		}})
+	}
+
+	// step sweep: every length of a single-branch run (1..140 bytes; thorough
+	// 1..300 and the 16-bit boundaries) in front of three label-rich variable
+	// sets, ending on a byte and on a half-byte boundary
+	{
+		var lens []int
+		maxL := 140
+		if thorough {
+			maxL = 300
+		}
+		for l := 1; l <= maxL; l++ {
+			lens = append(lens, l)
+		}
+		if thorough {
+			lens = append(lens, 511, 512, 513, 1023, 1024, 8191, 8192, 16000)
+		}
+		rich := [][]string{
+			{"", "\x00", "\x0f", "\xf0", "\xff"},
+			{"\x0f", "\x0f\xff", "\xf0", "\xf0\x00", "\xff\xff"},
+			{"\x70\x01", "\x7f", "\x7f\x00"}, // shares the high nibble: the run ends on a half byte
+		}
+		r.Bounds["step_sweep"] = fmt.Sprintf("run lengths 1..%d bytes (+ boundaries in thorough) x %d variable sets", maxL, len(rich))
+		mkq := mk(sp.q2)
+		phases = append(phases, phase{"step-sweep", func(emit func(u interface{}) bool) {
+			if p.scaffoldFilter != nil && !p.scaffoldFilter("stepsweep") {
+				return
+			}
+			for _, l := range lens {
+				P := strings.Repeat("\x5d", l)
+				sc := h.ScaffoldLift(fmt.Sprintf("run%d", l), P)
+				for _, S := range rich {
+					u := mkq(sc.Apply(S), false)
+					u.patterns = []uint64{(1 << uint(len(S)-1)) - 1, 0x5}
+					if !emit(u) {
+						return
+					}
+				}
+			}
+		}})
 	}
 
 	if thorough && p.u85k > 0 {
